@@ -29,6 +29,7 @@ pub fn generate(prop: &str, tier: &str, seed: u64) -> Vec<Episode> {
         "C10b" => lutops::gen_c10b(thorough, seed),
         "C11" => lutops::gen_c11(thorough, seed),
         "C17" => lutops::gen_c17(thorough, seed),
+        "C19" => lutops::gen_c19(thorough, seed),
         "C12" => two::gen_c12(thorough, seed),
         "C13" => two::gen_c13(thorough, seed),
         "C14" => two::gen_c14(thorough, seed),
